@@ -203,6 +203,7 @@ type outcome struct {
 	Viols     []violT
 	Alloc     uint64
 	NodeDirty bool
+	Queued    int // messages the reactor forwarded to the consensus state's queue
 }
 
 func (o *outcome) viol(oracle, f string, a ...interface{}) {
@@ -285,6 +286,7 @@ func (e *consEnv) drain(c *consNode, out *outcome) {
 		if !ok {
 			return
 		}
+		out.Queued++
 		c.N.DeliverPeerMsg(m, from)
 		if c.N.Failed != nil {
 			out.viol("panic-in-handleMsg", "CONSENSUS FAILURE: the consensus handler panicked on a message accepted by the reactor: %v at %s",
@@ -373,6 +375,7 @@ func (e *consEnv) run(cs *caseT) *outcome {
 	if pn != nil {
 		out.Contained = fmt.Sprintf("%v at %s", short(fmt.Sprint(pn), 160), panicSite(stk))
 	}
+	out.Queued = 0
 	e.drain(c, out)
 	out.Alloc = allocBytes() - a0
 	sentBytes := uint64(len(msg))
@@ -429,6 +432,8 @@ func (e *consEnv) run(cs *caseT) *outcome {
 		out.Stage = "peer-state-changed"
 	case p.sentTot != sent0:
 		out.Stage = "answered"
+	case out.Queued > 0:
+		out.Stage = "forwarded-to-consensus-no-effect"
 	default:
 		out.Stage = "accepted-no-effect"
 	}
